@@ -6,7 +6,7 @@ SPEC = {
                    "3": "graphql.PrepareQuery verdict of each version's built schema on each generated query",
                    "4": "ConvertVersionedSchemas verdict (accepted / 'Invalid federation key' / 'not federated') vs fedobjs_ok and fedkeys_ok",
                    "5": "per service: the intersection of its versions (MergeIntrospectionSchemas of the service alone) or error vs service_schema_r"},
-    "corr_name": "Federation.Merge (merge_all, field_services, valid_query) vs federation.MergeIntrospectionSchemas / ConvertVersionedSchemas / graphql.PrepareQuery",
+    "corr_name": "Federation.Merge (merge_all_r, service_schema_r, field_services, valid_query) vs federation.MergeIntrospectionSchemas / ConvertVersionedSchemas / graphql.PrepareQuery",
     "coq_modules": ["Federation.Merge", "Federation.MergeProofsKeys"],
     "search": {"n": 6000, "timeout": 600},
     "trusted_base": [
@@ -21,7 +21,7 @@ SPEC = {
         "a scalar is identified by its name: the same values are acceptable for it in every version",
     ],
     "manifest": {
-        "text": "Coq theorems (Props/C09.v) over an executable model of mergeTypeRefs / mergeInputFields / mergeFields / mergeTypes / mergeSchemas / mergeSchemaSlice / processSchemaVersions: soundness of the version intersection for every query and any number of versions, the n-ary nullability lattice, commutativity and closure of mergeSchemas, completeness of the service union, and refutations (with witnesses replayed on the code) of the two known findings. On every run the model is evaluated against MergeIntrospectionSchemas and ConvertVersionedSchemas on generated services x versions (raw introspection terms and schemas really built with schemabuilder), and the property is evaluated directly on the implementation: queries walked out of the merged schema must pass graphql.PrepareQuery on every version of the serving service; renaming/reordering services and versions must not change the outcome; the nullability rule and closure are read off the output.",
+        "text": "Coq theorems (Props/C09.v) over an executable model of mergeTypeRefs / mergeInputFields / mergeFields / mergeTypes / mergeSchemas / mergeSchemaSlice / processSchemaVersions: soundness of the version intersection for every query and any number of versions, the n-ary nullability lattice (for mergeTypeRefs and, at schema level, for fields, arguments and input-object fields of any number of schemas), commutativity and closure of mergeSchemas, n-ary permutation invariance of the success outcome of mergeSchemaSlice and of MergeIntrospectionSchemas under renaming / reordering of services and versions, pairwise compatibility as the exact condition under which success cannot depend on the order, full naming independence of the repaired fold (patches/C09-fix-1, modelled beside the code as it is), completeness of the service union, and refutations (with witnesses replayed on the code) of the two known findings. On every run the model is evaluated against MergeIntrospectionSchemas and ConvertVersionedSchemas on generated services x versions (raw introspection terms and schemas really built with schemabuilder), and the property is evaluated directly on the implementation: queries walked out of the merged schema must pass graphql.PrepareQuery on every version of the serving service; renaming/reordering services and versions must not change the outcome; the nullability rule and closure are read off the output.",
         "note": "Trusted: Coq kernel + vm_compute; the hand-written model (tied to the code only by the correspondence check); the Go harness. Known findings (open): a union of services keeps optional arguments, enum values and input-object fields that only one of the services serving a field knows; whether an incompatible set of three or more versions is rejected depends on how the versions are named.",
         "technique": "Coq proof over executable model + differential correspondence check (vm_compute) + property oracle on implementation outputs",
     },
